@@ -247,4 +247,27 @@ def assembleSeries {α} (items : List (List Rat × α)) (ori : List Rat) (rtol a
       | first :: _ => pure (sp, first.1, order.map (·.2))
       | [] => .error .index
 
+/-- `max(volume_positions)` -/
+def maxList : List Int → Option Int
+  | [] => none
+  | x :: xs => some (xs.foldl max x)
+
+/-- `Image._get_stacked_volume_geometry` without slice selection (geometry and frame placement of
+`Image.get_volume` / `get_volume_geometry`): volume positions of the frames (duplicates allowed there, the shared
+`SpacingBetweenSlices` as hint), number of slices `max + 1`, origin = position of the first frame with index 0,
+frame `f` goes to slice `vp[f]`.  Result: spacing, origin row, number of slices, slice of every frame. -/
+def assembleFrames (rows : List (List Rat)) (ori : List Rat) (hint rtol atol : Option Rat) (allowMissing : Bool) :
+    Except ErrKind (Rat × List Rat × Int × List Int) := do
+  let r ← getVolumePositions rows ori
+    { rtol := rtol, atol := atol, allowDuplicate := true, allowMissing := allowMissing, hint := hint }
+  match r with
+  | none => .error .runtime
+  | some (sp, vp) =>
+    match maxList vp, vp.idxOf? 0 with
+    | some m, some k =>
+      match rows[k]? with
+      | some origin => pure (sp, origin, m + 1, vp)
+      | none => .error .index
+    | _, _ => .error .value
+
 end HdVerif.Stack
